@@ -20,6 +20,7 @@ DOCUMENTED_PANICS = (
     ("Cannot support cross-component-model-task wakeup", "cross-task wake without the inter-task-wakeup feature (documented panic)"),
 )
 
+# classes with a precise classifier (known findings, and repaired defects whose reappearance must be named)
 KNOWN_WHAT = {
     "wake-after-cancelled-sleep":
         "a task cancelled (EVENT_CANCEL) while asleep keeps sleep state SLEEPING: a later wake (a waker held elsewhere, or a "
@@ -167,6 +168,9 @@ def run_exec(c, pid, builds, n_per_build, maxbody, props_module):
             pmsg = (iout[idx].split("\t") + [""])[1]
             fails = verdict.split(":", 1)[1].split(",") if verdict.startswith("spec=fail:") else ["missing"]
             fails = [f.split("@")[0] for f in fails]
+            # the monitor only suspects a `block_on`-YIELD panic from the shape of the trace; the panic message decides
+            if "panic:block-on-yield-without-waitable-set" in fails and "Option::unwrap()" not in pmsg:
+                fails = ["panic" if f == "panic:block-on-yield-without-waitable-set" else f for f in fails]
             # scripts outside the properties' domain
             if "deadlock" in toks:
                 skipped["block_on script deadlocks (nobody left to wake the task): host escape hatch"] += 1
